@@ -27,7 +27,7 @@ def main(argv):
         flag = "" if r["verdict"] == "unsat" else "   <<<<<<"
         if r["verdict"] != "unsat":
             bad += 1
-        print("%-8s %-6s %6.2fs n=%-4d %s%s" % (r["verdict"], r["backend"], r["time"], t["ninst"], t["name"], flag))
+        print("%-8s %-6s %6.2fs n=%-4d %s%s" % (r["verdict"], r["backend"], r["time"], r.get("ninst", 0), r["name"], flag))
         if r["verdict"] == "sat" and "-m" in sys.argv:
             print("   model:", {k: v for k, v in (r["model"] or {}).items() if not k.startswith("hv")})
     print("total %.2fs, not proved: %d" % (time.time() - t0, bad))
